@@ -55,6 +55,8 @@ HOPS = 2        # objects up to this many stores away from a module global / cla
 
 
 def short(name):
+    if not isinstance(name, (str, int, float, bool, bytes, type(None))):
+        return f"<{type(name).__name__}>"          # never an address: labels must agree across threads and runs
     name = " ".join(str(name).split())
     return name if len(name) <= 32 else f"{name[:20]}..#{hashlib.sha1(name.encode()).hexdigest()[:8]}"
 
@@ -226,10 +228,11 @@ class Extractor:
         return n if e >= 0 and ins[e].opname in SIMPLE else 0
 
     def item(self, frame, kinds, cont, key):
+        # the key itself names the item, so two keys are one location exactly when the dict treats them as one key
+        # (code objects, tuples, frozensets ... compare by value; objects with identity hashing stay thread-private)
         try:
             hash(key)
-            name = "*" if key is MISSING or not isinstance(key, (str, int, float, bytes, tuple, bool, type(None))) else \
-                (key if isinstance(key, str) else repr(key))
+            name = "*" if key is MISSING else key
         except TypeError:
             name = "*"
         for kind in kinds:
@@ -313,11 +316,13 @@ def trace(fn, keep):
 
 def current(space, name):
     """what is stored now at location (space, name), by plain lookups"""
-    if name == "*":
+    if type(name) is str and name == "*":
         return MISSING
     if isinstance(space, dict):
         return dict.get(space, name, MISSING)          # never a subclass's own get()
-    if isinstance(space, (list, set)):
+    if isinstance(space, list):
+        return space[name] if isinstance(name, int) and -len(space) <= name < len(space) else MISSING
+    if isinstance(space, set):
         return MISSING
     if isinstance(space, type):
         return static_attr(space, name)[1]
@@ -404,7 +409,7 @@ def scenario(runner, programs, bindings, evals=1, warm=False):
                     errors.append(f"thread {t}: {lab}.{name} was {how} by the workload but no write event was extracted "
                                   f"(extraction incomplete for this tree)")
             alias = aliases(ex.steps, set(state.spaces), keep)
-            whole = {a["ns"] for s in ex.steps for a in s["acc"] if a["name"] == "*"}
+            whole = {a["ns"] for s in ex.steps for a in s["acc"] if type(a["name"]) is str and a["name"] == "*"}
             for s in ex.steps:
                 for a in s["acc"]:
                     a["raw"], a["ns"] = a["ns"], canonical(a["ns"], alias)
@@ -435,15 +440,23 @@ def scenario(runner, programs, bindings, evals=1, warm=False):
     lab = labels(state)
     private = {}
 
+    keys = {}
+
+    def nm(name):
+        """label of an item key: equal keys (by value) get the same label, distinct ones distinct labels"""
+        if isinstance(name, (str, int, float, bool, bytes, type(None))):
+            return short(name if isinstance(name, str) else repr(name))
+        return keys.setdefault(name, f"<{type(name).__name__} key#{len(keys)}>")
+
     def label(ns):
         if isinstance(ns, tuple):
-            return f"{label(ns[1])}[{short(ns[2])}]"
+            return f"{label(ns[1])}[{nm(ns[2])}]"
         return lab.get(ns) or private.setdefault(ns, f"object#{len(private)}")
     threads = []
     for t, steps in enumerate(per):
         out = []
         for s in steps:
-            acc = [{"kind": a["kind"], "loc": f"{label(a['ns'])}::{short(a['name'])}", "site": a["site"], "at": a["at"]}
+            acc = [{"kind": a["kind"], "loc": f"{label(a['ns'])}::{nm(a['name'])}", "site": a["site"], "at": a["at"]}
                    for a in s["acc"] if (a["ns"], a["name"]) in shared]
             if acc:
                 f, q, line, nth = s["key"]
@@ -454,5 +467,5 @@ def scenario(runner, programs, bindings, evals=1, warm=False):
     stats["shared-written-locations"] = len(shared)
     stats["relevant-steps"] = sum(len(x) for x in threads)
     stats["relevant-accesses"] = sum(len(s["acc"]) for x in threads for s in x)
-    return {"solo": plain, "threads": threads, "locations": sorted(f"{label(ns)}::{short(n)}" for ns, n in shared),
+    return {"solo": plain, "threads": threads, "locations": sorted(f"{label(ns)}::{nm(n)}" for ns, n in shared),
             "stats": dict(stats), "errors": errors, "funcs": sorted(funcs), "state": state}
